@@ -3,7 +3,7 @@
    of the generic parameter - are function parameters of the generated definitions returning (new iterator, item);
    instantiated with the stream primitives Target.snext / snth the generated functions equal Target.cropped_new /
    cropped_next (state and result swapped: the generated `next` returns (new self, item)). *)
-From EG Require Import Base.Prelude Base.Casts Model.Geometry Model.Target Gen.SrcGeometry Gen.SrcCropped Proofs.SrcGeometry.
+From EG Require Import Base.Prelude Base.Casts Model.Geometry Model.Target Gen.SrcGeometry Gen.SrcCropped Proofs.SrcGeometry Proofs.SrcRectFacts.
 Set Default Timeout 60.
 
 Definition st_next (s : stream) : stream * option Z := (snd (snext s), fst (snext s)).
@@ -21,11 +21,10 @@ Qed.
 
 Lemma src_cropped_new_eq it size crop :
   size_i32 size -> size_i32 (sz crop) ->
-  let ca := intersection (R (P 0 0) size) crop in
-  0 <= px (tl ca) <= i32_max -> 0 <= py (tl ca) <= i32_max -> 0 <= sw (sz ca) ->
   src_Cropped_new st_nth it size crop = cropped_new it size crop.
 Proof.
-  intros Hs Hc ca Hx Hy Hw. unfold src_Cropped_new, cropped_new. cbv zeta.
+  intros Hs Hc. pose (ca := intersection (R (P 0 0) size) crop).
+  destruct (origin_intersection_facts size crop Hs Hc) as [Hx [Hy Hw]]. fold ca in Hx, Hy, Hw. unfold src_Cropped_new, cropped_new. cbv zeta.
   change (src_Rectangle_new src_Point_zero size) with (R (P 0 0) size).
   rewrite src_Rectangle_intersection_eq by assumption. fold ca.
   destruct Hs as [Hsw Hsh]. unfold i32_max in *.
